@@ -71,14 +71,19 @@ def source(case):
     va = f'{vstacked}    #[serde(rename_all = "{rule}")]\n' if rule != "none" else ""
     if case["spelling"] == "after_list" and rule != "none":
         va = f'    #[serde(bound(deserialize = ""), rename_all = "{rule}")]\n'
-    return (f'#[typeshare]\n#[serde(tag = "type", content = "content"{extra})]\npub enum Cont {{\n    Unit,\n{va}    Var {{\n{fields}    }},\n}}\n')
+    # MC_C01!Siblings: a second struct variant, before / after the variant under test, with / without a rule of its own
+    sib = case.get("sibling", "none")
+    sr = case.get("sibling_rule", "none")
+    dec = (f'    #[serde(rename_all = "{sr}")]\n' if sr != "none" else "") + "    Dec {\n        dec_word: u32,\n    },\n"
+    return (f'#[typeshare]\n#[serde(tag = "type", content = "content"{extra})]\npub enum Cont {{\n    Unit,\n{dec if sib == "ruled_before" else ""}{va}    Var {{\n{fields}    }},\n'
+            f'{dec if sib in ("ruled_after", "plain_after") else ""}}}\n')
 
 
 def members_of(lang, obs, case, prefix=""):
     if case["kind"] == "struct":
         d = observe.find_def(obs, prefix + "Cont")
         return d.get("members") if d else None
-    return observe.struct_variant_members(lang, obs, [prefix + "Cont", "Cont"], "Var")
+    return observe.struct_variant_members(lang, obs, [prefix + "Cont", "Cont"], "Var", "Var" if case.get("sibling", "none") != "none" else None)
 
 
 def ident_class(name):
@@ -125,6 +130,8 @@ def judge_obs(chk, lang, case, members, expected_keys, prefix=""):
             # the layout is named only when it is necessary: the same case in the plain two-member layout (judged first) conforms
             if case.get("layout", "two") != "two" and sig not in chk.mismatches:
                 sig += "/layout=" + case["layout"]
+            if case.get("sibling", "none") != "none" and sig not in chk.mismatches:
+                sig += "/sibling=" + case["sibling"]
             chk.mismatch(sig, f"{lang}: {which} of {case}: JSON key `{k}`, serde uses `{e}`",
                          {"case": case, "lang": lang, "prefix": prefix}, e, k)
 
@@ -160,6 +167,13 @@ def run_cases(chk, cases, prefix_cfgs):
                         if rk != [subject]:
                             chk.mismatch(signature(lang, case, "reviver-key!=serde"), f"typescript: the reviver of {case} tests the keys {rk}, serde's key of the Date member is `{subject}`",
                                          {"case": case, "lang": lang, "prefix": prefix}, [subject], rk)
+                if exp is not None and case.get("sibling", "none") != "none":
+                    sm = observe.struct_variant_members(lang0, r["obs"], [(prefix if lang0 in ("swift", "kotlin") else "") + "Cont", "Cont"], "Dec", "Dec")
+                    sk = [m["key"] for m in sm] if sm is not None else None
+                    if sk != [case["sibling_key"]] and not (lang0 == "scala" and "-" in case["sibling_key"]):
+                        chk.mismatch(signature(lang, case, "key!=serde", "sibling-variant") + "/sibling=" + case["sibling"],
+                                     f"{lang}: {case}: the member of the sibling variant Dec (rule {case['sibling_rule']}) has the keys {sk}, serde uses `{case['sibling_key']}`",
+                                     {"case": case, "lang": lang, "prefix": prefix}, [case["sibling_key"]], sk)
                 if ms and len(ms) == 2 and case.get("layout", "two") == "two":
                     ident = case["ident"][2:] if case["ident"].startswith("r#") else case["ident"]
                     for m, (idt, ren) in zip(ms, ((ident, case["rename"]), ("plain_one", "none"))):
@@ -182,7 +196,8 @@ def run(chk):
     res = common.run_tlc("MC_C01", cfg="MC_C01_thorough" if thorough else "MC_C01_quick", workers=4, timeout=900)
     chk.add_tlc("MC_C01", res)
     chk.exhaustive = True
-    cases = sorted([(c["case"], c["keys"]) for c in res.replays], key=lambda ck: ck[0].get("layout", "two") != "two")
+    cases = sorted([(dict(c["case"], sibling_rule=c["sibling_rule"], sibling_key=c["sibling_key"]), c["keys"]) for c in res.replays],
+                   key=lambda ck: (ck[0].get("layout", "two") != "two", ck[0].get("sibling", "none") != "none"))
     if not cases:
         raise ToolError("no cases")
     chk.sample({"case": cases[len(cases) // 3][0], "required_keys": cases[len(cases) // 3][1], "source": source(cases[len(cases) // 3][0])})
